@@ -9,7 +9,7 @@
 From Coq Require Import String Ascii.
 From Coq Require Import NArith ZArith List Bool.
 From PyIpmi Require Import Lib.Res Lib.Bytes Lib.Prog Model.ApiSem Model.Bmc Gen.ApiContent Model.ApiRun
-  Proofs.ApiRunProofs Proofs.C07Pure Proofs.C07Lan Proofs.C07Chassis Proofs.C07Picmg Proofs.C07Sensor Proofs.C07App Proofs.C07Port.
+  Proofs.ApiRunProofs Proofs.C07Pure Proofs.C07Lan Proofs.C07Chassis Proofs.C07Picmg Proofs.C07Sensor Proofs.C07App Proofs.C07Port Proofs.C07Reads.
 Import ListNotations.
 Open Scope string_scope.
 Open Scope list_scope.
@@ -211,6 +211,66 @@ Theorem C07_write_read_power_channel_partial : forall s ch en lim pri bak st0,
     call "get_power_channel_status" [arg "start" ch] s1 = (r2, s1) /\ same r2 (Ok (pwr_status st1)).
 Proof. exact write_read_power. Qed.
 Print Assumptions C07_write_read_power_channel_partial.
+
+(* ---- reads on arbitrary BMC answers ----
+   For EVERY state s of the reference BMC whose answer to the read command is a byte string d of the stated domain
+   (every value 0..255 of the bytes that select or neighbour the decoded fields and every single-bit flip of every
+   byte, reserved bits included, around several base answers - not only answers that the library's own typed
+   writes can produce), the read returns the meaning of d given by an independent byte-position decoder
+   (Proofs/C07Reads.v, the spec_ functions) and leaves s unchanged. *)
+Theorem C07_read_boot_device_partial : forall s d, List.In d boot_dom ->
+  snd (bmc_handle s boot_req) = RBytes (0 :: d) ->
+  exists r, call "get_boot_device" [] s = (r, s) /\ same r (spec_boot_device d).
+Proof. exact (fun s d => read_answer "get_boot_device" [] boot_req spec_boot_device boot_dom s d boot_device_table). Qed.
+Print Assumptions C07_read_boot_device_partial.
+
+Theorem C07_read_boot_mode_partial : forall s d, List.In d boot_dom1 ->
+  snd (bmc_handle s boot_req) = RBytes (0 :: d) ->
+  exists r, call "get_boot_mode" [] s = (r, s) /\ same r (spec_boot_mode d).
+Proof. exact (fun s d => read_answer "get_boot_mode" [] boot_req spec_boot_mode boot_dom1 s d boot_mode_table). Qed.
+Print Assumptions C07_read_boot_mode_partial.
+
+Theorem C07_read_boot_persistency_partial : forall s d, List.In d boot_dom1 ->
+  snd (bmc_handle s boot_req) = RBytes (0 :: d) ->
+  exists r, call "get_boot_persistency" [] s = (r, s) /\ same r (spec_boot_pers d).
+Proof. exact (fun s d => read_answer "get_boot_persistency" [] boot_req spec_boot_pers boot_dom1 s d boot_pers_table). Qed.
+Print Assumptions C07_read_boot_persistency_partial.
+
+Theorem C07_read_chassis_status_partial : forall s d, List.In d chassis_dom ->
+  snd (bmc_handle s (mkReq 0 1 0 [])) = RBytes (0 :: d) ->
+  exists r, call "get_chassis_status" [] s = (r, s) /\ same r (spec_chassis d).
+Proof. exact (fun s d => read_answer "get_chassis_status" [] (mkReq 0 1 0 []) spec_chassis chassis_dom s d chassis_table). Qed.
+Print Assumptions C07_read_chassis_status_partial.
+
+Theorem C07_read_watchdog_partial : forall s d, List.In d wd_dom ->
+  snd (bmc_handle s (mkReq 6 37 0 [])) = RBytes (0 :: d) ->
+  exists r, call "get_watchdog_timer" [] s = (r, s) /\ same r (spec_wd d).
+Proof. exact (fun s d => read_answer "get_watchdog_timer" [] (mkReq 6 37 0 []) spec_wd wd_dom s d wd_read_table). Qed.
+Print Assumptions C07_read_watchdog_partial.
+
+Theorem C07_read_sensor_reading_partial : forall s d, List.In d reading_dom ->
+  snd (bmc_handle s (mkReq 4 45 1 [3])) = RBytes (0 :: d) ->
+  exists r, call "get_sensor_reading" reading_args s = (r, s) /\ same r (spec_reading d).
+Proof. exact (fun s d => read_answer "get_sensor_reading" reading_args (mkReq 4 45 1 [3]) spec_reading reading_dom s d reading_table). Qed.
+Print Assumptions C07_read_sensor_reading_partial.
+
+Theorem C07_read_thresholds_partial : forall s d, List.In d thr_dom ->
+  snd (bmc_handle s (mkReq 4 39 1 [3])) = RBytes (0 :: d) ->
+  exists r, call "get_sensor_thresholds" reading_args s = (r, s) /\ same r (spec_thr d).
+Proof. exact (fun s d => read_answer "get_sensor_thresholds" reading_args (mkReq 4 39 1 [3]) spec_thr thr_dom s d thr_read_table). Qed.
+Print Assumptions C07_read_thresholds_partial.
+
+Theorem C07_read_user_access_partial : forall s d, List.In d uacc_dom ->
+  snd (bmc_handle s (mkReq 6 68 0 [1; 3])) = RBytes (0 :: d) ->
+  exists r, call "get_user_access" uacc_args s = (r, s) /\ same r (spec_uacc d).
+Proof. exact (fun s d => read_answer "get_user_access" uacc_args (mkReq 6 68 0 [1; 3]) spec_uacc uacc_dom s d uacc_table). Qed.
+Print Assumptions C07_read_user_access_partial.
+
+Theorem C07_read_led_state_partial : forall s d, List.In d led_dom ->
+  snd (bmc_handle s (mkReq 44 8 0 [0; 1; 2])) = RBytes (0 :: d) ->
+  exists r, call "get_led_state" led_args s = (r, s) /\ same r (spec_led d).
+Proof. exact (fun s d => read_answer "get_led_state" led_args (mkReq 44 8 0 [0; 1; 2]) spec_led led_dom s d led_read_table). Qed.
+Print Assumptions C07_read_led_state_partial.
 
 (* non-vacuity: the domains are inhabited and a concrete history runs *)
 Example C07_somewhere :
